@@ -221,6 +221,8 @@ def run(ctx):
     rule_write_ahead(ctx, facts)
     rule_lock_atomic(ctx, facts)
     rule_writers_closed(ctx, facts)
+    from .c07 import rule_no_self_termination
+    rule_no_self_termination(ctx, facts, "C02-R8")
     # start value comes from the lock when present (C01-R3) — re-checked here because the
     # induction needs it
     from . import c01
